@@ -90,7 +90,9 @@ if data_len_sub is None:
     die("_read_frame: `data_len = hdr.Len - <const>`")
 
 # --- _read_ack echo slice ---------------------------------------------------------------------------
-ra = find_func(conn, "_read_ack")
+# (`_read_ack` may delegate its loop to a helper `_wait_for_ack`; both are read)
+ra = ast.Module(body=[find_func(conn, "_read_ack")]
+                + [n for n in conn.body if isinstance(n, ast.AsyncFunctionDef) and n.name == "_wait_for_ack"], type_ignores=[])
 echo = [n.slice.upper.value for n in ast.walk(ra)
         if isinstance(n, ast.Subscript) and isinstance(n.value, ast.Name) and n.value.id == "prev_data"
         and isinstance(n.slice, ast.Slice) and n.slice.lower is None and isinstance(n.slice.upper, ast.Constant)]
